@@ -9,7 +9,8 @@ HORIZON_S = 1800   # one case = one input under all its transformations
 LEVEL = 'exploration'
 LEVEL_TEXT = ('Every input of the corpus (windows, cut-outs, docked pairs, clusters, whole chains; thorough: whole files) is '
               'relabelled by every transformation of a fixed list - order-preserving chain renamings onto upper-case, lower-case '
-              'and digit ids, per-chain residue-number shifts (to negative numbers, +1, +1000, up to 9999), sequential '
+              'and digit ids, per-chain residue-number shifts (to negative numbers, +1, +1000, up to 9999, and shifts that make the numbers of different '
+              'chains collide or reverse their order), sequential '
               'renumbering in file order (which gives insertion-coded residues numbers of their own) and, conversely, the '
               'introduction of an insertion code at every adjacent residue pair - and run through the real program; the '
               'records keyed by position in the file must be equal to 1e-9 with partner identity mapped through the relabelling.')
@@ -42,7 +43,16 @@ def transforms(s, tier):
     rmax = {c: max(k[0] for k in res[c]) for c in chains}
     shifts = {'negative': {c: -rmin[c] - 5 - (rmax[c] - rmin[c]) for c in chains}, 'plus1': {c: 1 for c in chains},
               'plus1000': {c: 1000 for c in chains}, 'to9999': {c: 9999 - rmax[c] for c in chains},
-              'staggered': {c: 37 * (k + 1) for k, c in enumerate(chains)}}
+              'staggered': {c: 37 * (k + 1) for k, c in enumerate(chains)},
+              # forced collisions between chains: later chains get lower numbers than earlier ones; every chain starts at 1; each
+              # chain starts at the number the previous chain ends with
+              'reverse-chain-order': {c: (2000 - 300 * k) - rmin[c] for k, c in enumerate(chains)},
+              'same-start': {c: 1 - rmin[c] for c in chains}}
+    run, last = {}, None
+    for c in chains:
+        run[c] = 0 if last is None else last - rmin[c]
+        last = rmax[c] + run[c]
+    shifts['start-at-previous-end'] = run
     for name, sh in shifts.items():
         if any(rmin[c] + sh[c] < -999 or rmax[c] + sh[c] > 9999 for c in chains):
             continue
@@ -103,7 +113,7 @@ def inputs(tier):
     out = [dict(src='corpus', d=d) for d in corpus.windows(tier, k=5)]
     out += [dict(src='corpus', d=d) for d in corpus.cutouts(tier, radius=9.0)]
     out += [dict(src='corpus', d=d) for d in corpus.pairs(tier, kinds_a=('ASP', 'HIS', 'TYR', 'N+', 'ACT'),
-                                                       kinds_b=('LYS', 'GLU', 'C-', 'CA', 'MAM', 'CYS', 'ASN', 'PYR'),
+                                                       kinds_b=('LYS', 'GLU', 'C-', 'CA', 'MAM', 'CYS', 'ASN', 'PYR', 'ASNO', 'GLNO'),
                                                        dists=(3.0,) if tier == 'quick' else (2.8, 3.0, 6.0))]
     out += [dict(src='corpus', d=d) for d in corpus.clusters(tier)[:: (1 if tier == 'thorough' else 3)]]
     out += [dict(src='corpus', d=corpus.chain_desc('3SGB', 'I'))]
@@ -125,9 +135,10 @@ def plan(tier, seed):
     ins = inputs(tier)
     shards = [ins[i:i + 5] for i in range(0, len(ins), 5)]
     return dict(shards=shards, exhaustive=True,
-                rule=('inputs: 5-residue windows, 9 A cut-outs, docked pairs (5x8 kinds), clusters, chain I of 3SGB (thorough: every '
+                rule=('inputs: 5-residue windows, 9 A cut-outs, docked pairs (5x10 kinds), clusters, chain I of 3SGB (thorough: every '
                       'chain of the 4 proteins); transformations: chain renamings onto %s (order preserving), per-chain number shifts '
-                      '{to negative, +1, +1000, to 9999, staggered}, sequential renumbering in file order, insertion code introduced '
+                      '{to negative, +1, +1000, to 9999, staggered, later chains lower, all chains from 1, each chain starting at the last number '
+                      'of the previous one}, sequential renumbering in file order, insertion code introduced '
                       'at each adjacent residue pair (quick: at most 8 positions per input, evenly spaced). non-trivial = distinct '
                       '(input, transformation) whose record has at least one determinant or non-zero desolvation term') % sorted(CHAIN_TARGETS),
                 bounds=dict(inputs=len(ins)), samples=[ins[0], ins[-1]])
